@@ -90,7 +90,9 @@ def AT(name, cfg, **kw):
 
 def c02_stages(tier):
     st = [AT('compose-q', 'MC_AffTree_compose_q.cfg'), AT('compose-dim', 'MC_AffTree_compose_dim.cfg'),
-          AT('compose-k4', 'MC_AffTree_compose_k4.cfg'), AT('compose-g2', 'MC_AffTree_compose_g2.cfg')]
+          AT('compose-k4', 'MC_AffTree_compose_k4.cfg'), AT('compose-g2', 'MC_AffTree_compose_g2.cfg'),
+          # terminals with a constant component that lies exactly on a threshold of the right operand (constant pulled-back predicates)
+          AT('compose-z', 'MC_AffTree_compose_z.cfg')]
     if tier == 'thorough':
         st += [AT('compose-t', 'MC_AffTree_compose_t.cfg'), AT('compose-dimt', 'MC_AffTree_compose_dimt.cfg'),
                AT('compose-k4t', 'MC_AffTree_compose_k4t.cfg')]
@@ -144,7 +146,9 @@ def HS(name, cfg, **kw):
 def prune_stages(tier):
     st = [HS('prune-q', 'MC_AffTree_prune_q.cfg', post=pscale_variants(['alt20'], 3, only_ops={'eliminate'})),
           HS('prune-2d', 'MC_AffTree_prune_2d.cfg'), HS('prune-d3', 'MC_AffTree_prune_d3.cfg'),
-          HS('pruneg-q', 'MC_AffTree_pruneg_q.cfg'), HS('prunea-q', 'MC_AffTree_prunea_q.cfg'), HS('prunedeep-q', 'MC_AffTree_prunedeep_q.cfg')]
+          HS('pruneg-q', 'MC_AffTree_pruneg_q.cfg'), HS('prunea-q', 'MC_AffTree_prunea_q.cfg'), HS('prunedeep-q', 'MC_AffTree_prunedeep_q.cfg'),
+          # K = 4: two-row decisions below the root (cached witnesses must satisfy every row), children under labels no input takes
+          HS('prune-k4', 'MC_AffTree_prune_k4.cfg')]
     if tier == 'thorough':
         st += [HS('prune-t', 'MC_AffTree_prune_t.cfg'), HS('pruneg-t', 'MC_AffTree_pruneg_t.cfg')]
     return st
